@@ -72,6 +72,8 @@ pub enum FEvent {
     Chained(u32, String),
     /// a task awaiting the join handle of a sub-task that holds the request, then asking again
     Spawned(u32),
+    /// a subscription whose consumer ends after this many items
+    StreamTake(u32, u8),
 }
 
 #[derive(Default)]
@@ -110,6 +112,7 @@ fn describe(e: &FEvent, depth: usize) -> String {
         FEvent::Got { site, a, s, blen } => format!("got:{site}:{a}:{}:{blen}", s.len()),
         FEvent::Chained(s, n) => format!("chained:{s}:{}", n.len()),
         FEvent::Spawned(s) => format!("spawned:{s}"),
+        FEvent::StreamTake(s, n) => format!("take:{s}:{n}"),
     }
 }
 
@@ -150,6 +153,19 @@ impl crux_core::App for FuzzApp {
                     })
                     .then_send(got(site + 500_000)),
                 ),
+            FEvent::StreamTake(site, n) => Command::new(move |ctx| async move {
+                use futures::StreamExt as _;
+                let mut items = ctx.stream_from_shell(FOp {
+                    site,
+                    note: String::new(),
+                });
+                for _ in 0..(n % 4) {
+                    match items.next().await {
+                        Some(o) => ctx.send_event(got(site)(o)),
+                        None => break,
+                    }
+                }
+            }),
             FEvent::Spawned(site) => Command::new(move |ctx| async move {
                 let sub = ctx.spawn(move |ctx| async move {
                     let o = ctx
